@@ -8,7 +8,7 @@
 
 namespace c05
 {
-constexpr int max_id = 12; // original elements have ids 0..max_id-1
+constexpr int max_id = 16; // original elements have ids 0..max_id-1
 constexpr int derived = max_id; // an element a continuation builds from an lvalue x has id x.id + derived
 enum : unsigned char { alive = 1, moved_from = 2, destroyed = 3 };
 enum : unsigned { err_read_moved = 1, err_touch_destroyed = 2, err_double_destroy = 4, err_bad_result = 8 };
@@ -83,7 +83,7 @@ using elem = elem_t<0>;
 using elem1 = elem_t<1>;
 using elem2 = elem_t<2>;
 
-inline char const *const val_names[max_id] = {"v0", "v1", "v2", "v3", "v4", "v5", "v6", "v7", "v8", "v9", "v10", "v11"};
+inline char const *const val_names[max_id] = {"v0", "v1", "v2", "v3", "v4", "v5", "v6", "v7", "v8", "v9", "v10", "v11", "v12", "v13", "v14", "v15"};
 // a fresh original element: concrete identity, symbolic payload
 template <int K = 0>
 inline elem_t<K> mk(int const id)
